@@ -11,7 +11,8 @@
 (*            admissible error families; form = how the statement sits in a line     *)
 (*            (simple; ifline = a one-line IF, which cannot sit in another one-line   *)
 (*            IF; header / closer / inner = a line of a block construct)              *)
-(*   chain  : the procedures between the main module and the fault (call depth)      *)
+(*   chain  : the procedures between the main module and the fault (call depth);      *)
+(*            mods: each one plain, STATIC or recursive through one call site         *)
 (*   nest   : the blocks around the fault statement (nesting depth); "oneline" is     *)
 (*            IF .. THEN <statement> on one line                                      *)
 (*   csnest : the block around every call site;  csform : spelling of the call       *)
@@ -128,6 +129,9 @@ CsNest == IF Rich THEN {"none", "if", "for", "select", "oneline"} ELSE {"none"}
 Prior == IF Rich THEN 0..1 ELSE {0}
 \* calls that have already RETURNED before each call site and before the fault (the call stack must forget them)
 Helpers == IF Rich THEN 0..2 ELSE {1}
+\* how each procedure of the chain is declared / entered: plain; STATIC (its own kind of activation record); "rec": it
+\* first calls itself twice through ONE call site (the same call site is active several times, in a row)
+Mods == IF Rich \/ FaultSel = "base" THEN {"plain", "static", "rec"} ELSE {"plain"}
 
 VARIABLES phase, c
 vars == <<phase, c>>
@@ -142,7 +146,8 @@ PickFault ==
 PickChain ==
   /\ phase = "chain"
   /\ \E ch \in SeqsUpTo(ProcKinds, MaxCall) : \E cs \in CsNest : \E cf \in 0..(IF Rich THEN 1 ELSE 0) : \E hp \in Helpers :
-        c' = c @@ [chain |-> ch, csnest |-> IF ch = <<>> THEN "none" ELSE cs, csform |-> IF ch = <<>> THEN 0 ELSE cf, helpers |-> hp]
+     \E md \in [1..Len(ch) -> Mods] :
+        c' = c @@ [chain |-> ch, mods |-> md, csnest |-> IF ch = <<>> THEN "none" ELSE cs, csform |-> IF ch = <<>> THEN 0 ELSE cf, helpers |-> hp]
   /\ phase' = "nest"
 
 \* "oneline" only innermost and only around a statement that is a whole simple statement
@@ -183,7 +188,7 @@ Spec == Init /\ [][Next]_vars
 TypeOK == phase \in {"fault", "chain", "nest", "layout", "file", "prior", "done"}
 WellFormed ==
   phase = "done" =>
-    /\ Len(c.chain) <= MaxCall
+    /\ Len(c.chain) <= MaxCall /\ Len(c.mods) = Len(c.chain)
     /\ (c.form \in {"inner", "header"} => c.after = 0)
     /\ (c.form = "inner" => c.before = 0)
     /\ (\E i \in 1..Len(c.nest) : c.nest[i] = "oneline") => (c.form = "simple" /\ c.nest[Len(c.nest)] = "oneline")
